@@ -24,17 +24,74 @@ Theorem C14_handlers_never_panic :
 Proof. exact handlers_total_v1. Qed.
 
 (* the legacy request and the versioned POST it is shimmed into reach the IPC layer with the same body, and
-   the legacy response is the image under the total map [legacy_map] of the versioned response *)
+   the legacy response is the image under the total map [legacy_map] of the versioned response - within the size
+   limit: [versioned_twin] is the encoded body as the handler reads it when it is POSTed directly, i.e. through the
+   100 000 byte read limit; the hypothesis is about the request at hand (the real encoder embeds the offer, so no
+   bound holds for all offers). Beyond the limit: C14_legacy_shim_diverges_over_limit. *)
 Theorem C14_legacy_equiv :
   forall enc_req dec_resp ipc_client,
   (forall o n, is_legacy (enc_req o n) = false) ->
   forall v offer nat_header, is_legacy offer = true ->
+    N.of_nat (List.length (enc_req offer nat_header)) <= READ_LIMIT_N ->
     client_offers enc_req dec_resp ipc_client v (ReadOk offer) nat_header =
     match client_offers enc_req dec_resp ipc_client v (versioned_twin enc_req offer nat_header) nat_header with
     | HResp 200 response => legacy_map dec_resp v response
     | other => other
     end.
 Proof. exact legacy_equiv. Qed.
+
+(* The shim diverges at the size limit (inherent: clientOffers hands the encoded body to IPC without putting it through
+   the limit again). A legacy body that was read - hence at most 100 000 bytes - whose versioned encoding exceeds
+   100 000 bytes (the encoding adds the version line, the field names, the NAT type and the default fingerprint, and
+   JSON escaping grows the offer) is answered per IPC, while the same encoding POSTed directly is a 400.
+   For every encoder, decoder and IPC behaviour; no hypothesis on the encoder. *)
+Theorem C14_legacy_shim_diverges_over_limit :
+  forall enc_req dec_resp ipc_client v offer nat_header,
+    is_legacy offer = true ->
+    READ_LIMIT_N < N.of_nat (List.length (enc_req offer nat_header)) ->
+    client_offers enc_req dec_resp ipc_client v (ReadOk offer) nat_header =
+      match ipc_client (enc_req offer nat_header) with
+      | IpcOk response => legacy_map dec_resp v response
+      | _ => HResp 500 []
+      end /\
+    client_offers enc_req dec_resp ipc_client v (versioned_twin enc_req offer nat_header) nat_header = HResp 400 [].
+Proof. exact legacy_diverges_over_limit. Qed.
+
+(* an encoder shaped like EncodeClientPollRequest: version line, then the JSON object with the offer escaped the way
+   encoding/json escapes quotes and backslashes (used by the examples only) *)
+Definition ex_escape (o : bytes) : bytes :=
+  flat_map (fun c => if c =? 34 then [92; 34] else if c =? 92 then [92; 92] else [c]) o.
+Definition ex_enc (o n : bytes) : bytes :=
+  bs "1.0" ++ [10] ++ bs "{""offer"":""" ++ ex_escape o ++ bs """,""nat"":""" ++ n ++
+  bs """,""fingerprint"":""2B280B23E1107BB62ABFC40DDCC8824814F80A72""}".
+
+(* the divergence is real, and the hypotheses of C14_legacy_equiv are satisfiable by an encoder that embeds the offer:
+   (1) a 9-byte legacy offer: within the limit, legacy answer = image of the twin's answer (503 for "no proxies");
+   (2) a 99 930-byte legacy offer without a single character to escape: read in full, its encoding is 100 012 bytes;
+   (3) a 55 001-byte legacy offer made of quotes: its encoding is 110 083 bytes.
+   In (2) and (3) the legacy request is answered 503 (what IPC said), the encoding POSTed directly 400. *)
+Example C14_legacy_shim_diverges_ex :
+  let dec := fun r : bytes => Some {| r_answer := []; r_error := r |} in
+  let ipc := fun _ : bytes => IpcOk STR_NO_PROXIES in
+  let small := bs "{""sdp"":1}" in
+  let plain := 123 :: repeat 120 (N.to_nat 99929) in
+  let quotes := 123 :: repeat 34 (N.to_nat 55000) in
+  (forall o n, is_legacy (ex_enc o n) = false) /\
+  (is_legacy small = true /\ N.of_nat (List.length (ex_enc small [])) <= READ_LIMIT_N /\
+   client_offers ex_enc dec ipc H1 (ReadOk small) [] = HResp 503 [] /\
+   client_offers ex_enc dec ipc H1 (versioned_twin ex_enc small []) [] = HResp 200 STR_NO_PROXIES) /\
+  (is_legacy plain = true /\ N.of_nat (List.length plain) = 99930 /\ N.of_nat (List.length (ex_enc plain [])) = 100012 /\
+   client_offers ex_enc dec ipc H1 (read_body plain) [] = HResp 503 [] /\
+   client_offers ex_enc dec ipc H1 (versioned_twin ex_enc plain []) [] = HResp 400 []) /\
+  (is_legacy quotes = true /\ N.of_nat (List.length quotes) = 55001 /\ N.of_nat (List.length (ex_enc quotes [])) = 110083 /\
+   client_offers ex_enc dec ipc H1 (read_body quotes) [] = HResp 503 [] /\
+   client_offers ex_enc dec ipc H1 (versioned_twin ex_enc quotes []) [] = HResp 400 []).
+Proof.
+  split; [intros o n; reflexivity|].
+  split; [vm_compute; repeat split; discriminate|].
+  split; (split; [reflexivity|]; split; [vm_compute; reflexivity|]; split; [vm_compute; reflexivity|];
+          split; vm_compute; reflexivity).
+Qed.
 
 Theorem C14_legacy_map :
   forall dec_resp response,
@@ -163,17 +220,19 @@ Theorem C14_client_refines :
   client_offers enc_req dec_resp (fun b => fst (ipc_client s b)) v (read_body (q_sent q)) (header_get (q_hdrs q) NAT_HEADER).
 Proof. exact client_offers_refines. Qed.
 
-(* legacy == versioned at the level of whole requests: the legacy request and the versioned POST of the shimmed
-   body make the same IPC call and leave the same broker state; the legacy response is the image of the other *)
+(* legacy == versioned at the level of whole requests, within the size limit: the legacy request and the versioned
+   POST of the shimmed body make the same IPC call and leave the same broker state; the legacy response is the image
+   of the other. The size hypothesis is about the encoding of the request at hand (non-vacuity with an encoder that
+   embeds the offer: C14_legacy_twin_ex). *)
 Theorem C14_legacy_twin :
   forall (St : Type) view enc_req dec_resp enc_err amp_dec amp_arm (ipc_client ipc_proxy ipc_answer : St -> bytes -> ipcres * St),
   (forall o n, is_legacy (enc_req o n) = false) ->
-  (forall o n, N.of_nat (List.length (enc_req o n)) <= READ_LIMIT_N) ->
   forall v s q q' offer,
   route_of (q_path q) = RClient -> route_of (q_path q') = RClient ->
   beq (q_method q) OPTIONS = false -> beq (q_method q') OPTIONS = false ->
   read_body (q_sent q) = ReadOk offer -> is_legacy offer = true ->
   q_sent q' = enc_req offer (header_get (q_hdrs q) NAT_HEADER) ->
+  N.of_nat (List.length (enc_req offer (header_get (q_hdrs q) NAT_HEADER))) <= READ_LIMIT_N ->
   snd (serve_req St view enc_req dec_resp enc_err amp_dec amp_arm ipc_client ipc_proxy ipc_answer v s q) =
   snd (serve_req St view enc_req dec_resp enc_err amp_dec amp_arm ipc_client ipc_proxy ipc_answer v s q') /\
   hresp_of (fst (handle St view enc_req dec_resp enc_err amp_dec amp_arm ipc_client ipc_proxy ipc_answer v RClient s q)) =
@@ -182,6 +241,52 @@ Theorem C14_legacy_twin :
     | other => other
     end.
 Proof. exact legacy_twin_same_state. Qed.
+
+(* ... and beyond it the two requests part: the legacy request makes the IPC call on the encoded body whatever its
+   size, leaves the state that call leaves and answers with the image of its outcome; the encoded body POSTed directly
+   is answered 400 without an IPC call, the state untouched. *)
+Theorem C14_legacy_twin_over_limit :
+  forall (St : Type) view enc_req dec_resp enc_err amp_dec amp_arm (ipc_client ipc_proxy ipc_answer : St -> bytes -> ipcres * St),
+  forall v s q q' offer,
+  route_of (q_path q) = RClient -> route_of (q_path q') = RClient ->
+  beq (q_method q) OPTIONS = false -> beq (q_method q') OPTIONS = false ->
+  read_body (q_sent q) = ReadOk offer -> is_legacy offer = true ->
+  q_sent q' = enc_req offer (header_get (q_hdrs q) NAT_HEADER) ->
+  READ_LIMIT_N < N.of_nat (List.length (enc_req offer (header_get (q_hdrs q) NAT_HEADER))) ->
+  let call := ipc_client s (enc_req offer (header_get (q_hdrs q) NAT_HEADER)) in
+  snd (serve_req St view enc_req dec_resp enc_err amp_dec amp_arm ipc_client ipc_proxy ipc_answer v s q) = snd call /\
+  hresp_of (fst (handle St view enc_req dec_resp enc_err amp_dec amp_arm ipc_client ipc_proxy ipc_answer v RClient s q)) =
+    match fst call with
+    | IpcOk response => legacy_map dec_resp v response
+    | _ => HResp 500 []
+    end /\
+  handle St view enc_req dec_resp enc_err amp_dec amp_arm ipc_client ipc_proxy ipc_answer v RClient s q' =
+    (Ret {| w_code := Some 400; w_body := []; w_cors := true |}, s) /\
+  snd (serve_req St view enc_req dec_resp enc_err amp_dec amp_arm ipc_client ipc_proxy ipc_answer v s q') = s.
+Proof. exact legacy_twin_over_limit. Qed.
+
+(* non-vacuity of both, on whole requests, with a state that counts the client polls IPC has seen: within the limit
+   both requests leave the count at 1 and the legacy answer is the image (503) of the twin's (200 + error text);
+   with a quote-heavy 55 001-byte legacy offer the legacy request still reaches IPC (count 1, 503), its encoding
+   POSTed directly does not (count 0, 400). *)
+Example C14_legacy_twin_ex :
+  let St := N in
+  let view := fun _ : St => {| v_snowflakes := []; v_metrics := None; v_prom := [] |} in
+  let dec := fun r : bytes => Some {| r_answer := []; r_error := r |} in
+  let ipc := fun (s : St) (_ : bytes) => (IpcOk STR_NO_PROXIES, s + 1) in
+  let nope := fun (s : St) (_ : bytes) => (IpcBadRequest, s) in
+  let srv := serve_req St view ex_enc dec (fun e => e) (fun _ => None) (fun b => b) ipc nope nope H1 0 in
+  let rq := fun hdrs body => {| q_method := bs "POST"; q_path := bs "/client"; q_hdrs := hdrs; q_sent := body |} in
+  let nat := [(bs "Snowflake-NAT-Type", bs "restricted")] in
+  let small := bs "{""sdp"":1}" in
+  let quotes := 123 :: repeat 34 (N.to_nat 55000) in
+  (N.of_nat (List.length (ex_enc small (header_get nat NAT_HEADER))) <= READ_LIMIT_N /\
+   srv (rq nat small) = (Ret {| p_status := 503; p_body := []; p_cors := true |}, 1) /\
+   srv (rq [] (ex_enc small (bs "restricted"))) = (Ret {| p_status := 200; p_body := STR_NO_PROXIES; p_cors := true |}, 1)) /\
+  (N.of_nat (List.length quotes) = 55001 /\ READ_LIMIT_N < N.of_nat (List.length (ex_enc quotes (header_get nat NAT_HEADER))) /\
+   srv (rq nat quotes) = (Ret {| p_status := 503; p_body := []; p_cors := true |}, 1) /\
+   srv (rq [] (ex_enc quotes (bs "restricted"))) = (Ret {| p_status := 400; p_body := []; p_cors := true |}, 0)).
+Proof. vm_compute. repeat split; discriminate. Qed.
 
 (* the NAT type is found under any spelling of the header name with the same canonical form; the first line wins *)
 Theorem C14_header_spelling : forall lines k1 k2, canon_key k1 = canon_key k2 -> header_get lines k1 = header_get lines k2.
